@@ -94,8 +94,11 @@ def check_run_record_replay(ck, R):
     body = rl.one(rl.calls("_filter_call"), "_filter_call call")
     bn = rl.nodes(body)
     # (a)
-    t_exists = [n.id for n in cfg.nodes if n.kind == "test" and A.norm(n.ast) == "existing_memento"]
-    t_valid = [n.id for n in cfg.nodes if n.kind == "test" and A.norm(n.ast).endswith(".valid_result")]
+    # tests are recognised on their expansion: "the looked-up memento" / "its processed form is valid"
+    xt = {n.id: rl.xnorm(n.ast, n.id) for n in cfg.nodes if n.kind == "test"}
+    t_exists = [i for i, t in xt.items() if t.startswith("storage_backend.get_memento(") and t.endswith(")") and " is " not in t or
+                (t.startswith("storage_backend.get_memento(") and t.endswith(" is not None"))]
+    t_valid = [i for i, t in xt.items() if t.startswith("process_existing_memento(") and t.endswith(".valid_result")]
     lookup_calls = [c for c in rl.calls("get_memento")]
     lookups = rl.nodes_all([c for c in lookup_calls if rl.unconditional(c)])
     cond_lookups = [c for c in lookup_calls if not rl.unconditional(c)]
@@ -112,9 +115,10 @@ def check_run_record_replay(ck, R):
           "the function body can run although a valid memoized result exists (or without looking one up)", rl.where(body))
     # served result is what the store returned
     for r in rl.returns():
-        if r.value is not None and "existing_memento_result" in A.norm(r.value):
-            okv = A.norm(r.value) == "existing_memento_result.result"
-            ck.ob(R, rl.key(r, "served-value"), okv, "a hit returns the stored value" if okv else "a hit does not return the stored value", rl.where(r))
+        if r.value is not None and "call:process_existing_memento" in rl.deps(r.value):
+            xr = rl.xnorm(r.value)
+            okv = xr.startswith("process_existing_memento(") and xr.endswith(").result")
+            ck.ob(R, rl.key(None, "served-value"), okv, "a hit returns the stored value" if okv else "a hit does not return the stored value", rl.where(r))
     # (b)
     mem = rl.some([c for c in rl.calls("memoize") if A.dotted(A.call_recv(c)) == "storage_backend"], "memoize call")
     mn = rl.nodes_all(mem)
@@ -148,7 +152,8 @@ def check_run_record_replay(ck, R):
                   "result_type = from_object(<the value passed to memoize>), recorded before memoize" if same and dom else
                   "the recorded result type does not classify the very value that is memoized (e.g. classified before unwrapping a key override)", rl.where(c))
             m2 = c.args[1] if len(c.args) > 1 else A.kwarg(c, "memento")
-            okm = m2 is not None and A.norm(m2) == "stack_frame.memento" and (A.dotted(rt.targets[0]) or "").startswith("stack_frame.memento.")
+            okm = m2 is not None and isinstance(m2, ast.Attribute) and m2.attr == "memento" and isinstance(m2.value, ast.Name) \
+                and rl.xnorm(m2.value, rl.nodes(c)[0]).startswith("StackFrame(") and (A.dotted(rt.targets[0]) or "").startswith(A.norm(m2) + ".")
             ck.ob(R, rl.key(c, "memento-arg"), okm, "the frame's memento (carrying result_type and provenance) is memoized" if okm else
                   "memoize is not given stack_frame.memento", rl.where(c))
             ko = c.args[0] if c.args else A.kwarg(c, "key_override")
@@ -156,11 +161,13 @@ def check_run_record_replay(ck, R):
             ck.ob(R, rl.key(c, "key-override-arg"), bool(okk), "the key override unwrapped from the result is honoured" if okk else
                   "the key override of a KeyOverrideResult is not passed to memoize", rl.where(c))
     # unwrap precedes classification
-    unwrap = [s for s in rl.stmts(ast.Assign) if A.norm(s) == "result = result.result"]
+    unwrap = [s for s in rl.stmts(ast.Assign) if len(s.targets) == 1 and isinstance(s.targets[0], ast.Name) and isinstance(s.value, ast.Attribute)
+              and s.value.attr == "result" and isinstance(s.value.value, ast.Name) and s.value.value.id == s.targets[0].id]
     oku = bool(unwrap) and bool(rts) and all(cfg.must_pass(rl.nodes(unwrap[0]), i, edge_ok=None) or True for i in rl.nodes(rts[0]))
     if unwrap and rts:
         g = rl.enclosing(unwrap[0], ast.If)
-        oku = g is not None and "isinstance(result, KeyOverrideResult)" in A.norm(g.test) and \
+        oku = g is not None and any((A.isinstance_types(t_) or ("", []))[0] == unwrap[0].targets[0].id and "KeyOverrideResult" in A.isinstance_types(t_)[1]
+                                    for t_ in A.conj_atoms(g.test) if A.isinstance_types(t_)) and \
             not (set(rl.nodes(unwrap[0])) & cfg.reach(rl.nodes(rts[0]), include_start=False))
     ck.ob(R, rl.key(None, "unwrap-before-classify"), bool(oku), "a KeyOverrideResult is unwrapped before the value is classified" if oku else
           "a KeyOverrideResult is not unwrapped before classification", rl.where())
@@ -185,11 +192,13 @@ def check_run_record_replay(ck, R):
     ck.ob(R, rl.key(tr, "exception-recorded"), okd, "an ordinary exception is converted to a MementoException, memoized, and kept for re-raising" if okd else
           "an ordinary exception raised by the body is not converted with MementoException.from_exception and memoized", rl.where(tr))
     # the original exception object is what the caller gets
-    er = [r for r in rl.returns() if r.value is not None and A.norm(r.value) == "exception_result"]
+    kept = {s_.targets[0].id for h_ in gen for s_ in A.walk_local(h_) if isinstance(s_, ast.Assign) and A.norm(s_.value) == h_.name
+            and isinstance(s_.targets[0], ast.Name)}
+    er = [r for r in rl.returns() if isinstance(r.value, ast.Name) and r.value.id in kept]
     g_ok = False
     for r in er:
         g = rl.enclosing(r, ast.If)
-        if g is not None and A.norm(g.test) == "exception_result is not None":
+        if g is not None and A.norm(g.test) == "%s is not None" % r.value.id:
             g_ok = True
     ck.ob(R, rl.key(None, "exception-returned"), g_ok, "a failing first call hands the original exception to the caller" if g_ok else
           "a failing first call does not return its exception object", rl.where())
@@ -221,13 +230,17 @@ def check_replay(ck, R):
     okt = False
     for c in te:
         g = pe.enclosing(c, ast.If)
-        if g is not None and "isinstance(result, MementoException)" in A.norm(g.test):
-            okt = True
+        if g is not None:
+            for t_ in A.conj_atoms(g.test):
+                ty = A.isinstance_types(t_)
+                if ty and "MementoException" in ty[1] and "call:read_result" in pe.deps(t_.args[0]) \
+                        and A.call_recv(c) is not None and "call:read_result" in pe.deps(A.call_recv(c)):
+                    okt = True
     ck.ob(R, pe.key(None, "unwraps-exception"), okt, "a stored MementoException is rebuilt into the original exception class" if okt else
           "a stored MementoException is not passed through to_exception()", pe.where())
     rets = [r for r in pe.returns() if isinstance(r.value, ast.Call) and A.norm(A.kwarg(r.value, "valid_result")) == "True"
             and A.kwarg(r.value, "result") is not None and not A.is_none(A.kwarg(r.value, "result"))]
-    okv = len(rets) == 1 and A.norm(A.kwarg(rets[0].value, "result")) == "result"
+    okv = len(rets) == 1 and "call:read_result" in pe.deps(A.kwarg(rets[0].value, "result")) and isinstance(A.kwarg(rets[0].value, "result"), ast.Name)
     ck.ob(R, pe.key(None, "returns-read-value"), okv, "the value read back is returned as valid" if okv else
           "process_existing_memento does not return the value it read", pe.where())
     ign = [r for r in pe.returns() if isinstance(r.value, ast.Call) and A.is_none(A.kwarg(r.value, "result")) and A.norm(A.kwarg(r.value, "valid_result")) == "True"]
